@@ -147,6 +147,7 @@ class Run:
         self.objects = objects                  # True: local asl::String / asl::Array objects are modelled as bounds-checked buffers
         self.objlen = {}                        # var id -> element count of a modelled object (locals and registered parameters)
         self.strobjs = set()                    # ids of modelled objects that are Strings (length = characters before the NUL)
+        self.strcap = {}                        # id of a modelled String -> bytes it was constructed with room for (String(cap, n))
         self.boxed = {}                         # var id -> buffer name (locals whose address was taken)
         self.call_ptrs = call_ptrs or {}        # method name -> pointer value
         self.growable = set(growable)
@@ -386,6 +387,13 @@ class Run:
                 buf.append(0)
             buf[i] = v
             return
+        if isinstance(b, tuple) and b[0] == 'O' and b[1] in self.strcap and len(buf) <= i < self.strcap[b[1]]:
+            # a String constructed with spare capacity (String(cap, n)): text written through data() may use it
+            while len(buf) <= i:
+                buf.append(0)
+            buf[i] = v
+            self.objlen[b[1]] = len(buf) - 1
+            return
         if not 0 <= i < len(buf):
             raise OOB(b, i, len(buf), line)
         buf[i] = v
@@ -442,8 +450,14 @@ class Run:
         if len(args) != k0 + 2:
             raise Unsupported('`%s`' % pe(e))
         fmt = strip(args[k0])
-        while fmt.get('k') == 'cast':
-            fmt = strip(fmt['e'])
+        while fmt.get('k') in ('cast', 'paren') or fmt.get('k') == 'cond':
+            if fmt.get('k') == 'cond':
+                cv_ = self.val(fmt['c'])            # a format chosen by a condition on known values
+                if not isinstance(cv_, int):
+                    raise Unsupported('format of `%s` is not a literal' % pe(e))
+                fmt = strip(fmt['x'] if cv_ else fmt['y'])
+            else:
+                fmt = strip(fmt['e'])
         if fmt.get('k') != 'str':
             raise Unsupported('format of `%s` is not a literal' % pe(e))
         text = bytes(fmt['b']).decode('latin-1')
@@ -1290,6 +1304,22 @@ class Run:
                 self.bufs[('O', oid)][:] = chars + [0]
                 self.objlen[oid] = len(chars)
                 return ('OBJ', oid)
+            if oid in self.strobjs and name in ('cap', 'capacity') and not e.get('a'):
+                # the modelled string has no slack beyond its terminator, except the room it was constructed with
+                return max(len(self.bufs[('O', oid)]), self.strcap.get(oid, 0))
+            if oid in self.strobjs and name == 'resize' and 1 <= len(e.get('a', [])) <= 3:
+                # String::resize(n, keep = true, newlen = true): room for n characters and the terminator, the old text kept
+                n_ = self.val(e['a'][0])
+                flags_ = [self.val(a_) for a_ in e['a'][1:]]
+                if not isinstance(n_, int) or n_ < 0 or not all(isinstance(x_, int) for x_ in flags_):
+                    raise Unsupported('`%s`' % pe(e))
+                keep_ = flags_[0] if len(flags_) > 0 else 1
+                buf = self.bufs[('O', oid)]
+                old_ = buf[:-1][:n_] if keep_ else []
+                buf[:] = old_ + [0] * (n_ - len(old_)) + [0]
+                self.objlen[oid] = n_
+                self.strcap.pop(oid, None)
+                return ('OBJ', oid)
             if oid in self.strobjs and name == 'fix' and len(e.get('a', [])) == 1:
                 # String::fix(n): the text was written through str(); the length becomes n (the terminator must be there)
                 n_ = self.val(e['a'][0])
@@ -1581,6 +1611,10 @@ class Run:
                     self.objlen[v['id']] = n_
                     if tv.get('rec') == 'asl::String':
                         self.strobjs.add(v['id'])
+                        if len(args) == 2:
+                            c_ = self.val(args[0])
+                            if isinstance(c_, int) and 0 <= c_ < (1 << 20):
+                                self.strcap[v['id']] = max(c_ + 1, 16)     # String(cap, n): inline space or a block of at least cap + 1 bytes
                     return
             raise Unsupported('local %s of type %s' % (v['n'], tv.get('s')))
         if self.objects and tv.get('rec') and not tv.get('ref') and not tv.get('ptr') and tv.get('rec') in self.prog.records and self.record_class_has_bodies(tv['rec']) and v.get('init') is not None:
